@@ -134,6 +134,10 @@ func genC09(seed uint64, run int, tier string) Scenario {
 		// text before the hello document (ssh banners, motd)
 		sc.Server.Junk = pick(r, "Warning: Permanently added 'host' (ED25519) to the list of known hosts.\n", "*** authorized use only ***\n\n", "\n\n")
 	}
+	if r.IntN(4) == 0 {
+		// the server takes its time before it says hello
+		sc.Server.HelloLate = sc.ReadDelayUS * int64(between(r, 1, 60))
+	}
 	if r.IntN(3) == 0 {
 		sc.Server.HelloTrailer = pick(r, "\n", "\n", "\r\n", " \n")
 	}
